@@ -44,12 +44,17 @@ Cmds == {[k |-> "rpcmd", s |-> "l 2 0 C 1 1 2 1 3 5", endx |-> 3, endy |-> 5],
          [k |-> "rpcmd", s |-> "l 4 0 A 2 -90 0", endx |-> 6, endy |-> 2]}
 \* outline clearance: constant widths, flush / round ends, 1-2 sections
 \* (rot = 1: the finished path is rotated by atan(3/4) before its outline is taken)
-Regions == {[k |-> "rpregion", secs |-> ss, w |-> w, o |-> o, ends |-> e, tolk |-> t, rot |-> ro] :
+\* (mag: magnified about the origin before the outline is taken; scale_width makes widths follow)
+Regions == {[k |-> "rpregion", secs |-> ss, w |-> w, o |-> o, ends |-> e, tolk |-> t, rot |-> ro, mag |-> 1] :
               ss \in {<<Seg(<<8, 0>>, FALSE)>>, <<Seg(<<6, 0>>, FALSE), [k |-> "arc", rx |-> 4, ry |-> 4, a0 |-> -90, a1 |-> 0, rot |-> 0]>>,
                       <<[k |-> "cubic", c1 |-> <<3, 0>>, c2 |-> <<6, 2>>, e |-> <<8, 5>>, rel |-> TRUE]>>,
                       <<Seg(<<5, 0>>, FALSE), [k |-> "cubic_smooth", c2 |-> <<4, 3>>, e |-> <<6, 5>>, rel |-> TRUE]>>},
               w \in {1000, 500}, o \in {0, 750, -750}, e \in {"flush", "round"}, t \in {2, 3}, ro \in {0, 1}}
-Init == case \in Books \cup After \cup Cmds \cup Regions
+RegionsMag == {[k |-> "rpregion", secs |-> ss, w |-> w, o |-> o, ends |-> e, tolk |-> 2, rot |-> ro, mag |-> 2] :
+                 ss \in {<<Seg(<<8, 0>>, FALSE)>>, <<Seg(<<5, 0>>, FALSE), [k |-> "cubic_smooth", c2 |-> <<4, 3>>, e |-> <<6, 5>>, rel |-> TRUE]>>},
+                 w \in {1000}, o \in {0, 750}, e \in {"flush", "round", "halfwidth"}, ro \in {0, 1}}
+              \cup {[k |-> "rpregion", secs |-> <<Seg(<<8, 0>>, FALSE)>>, w |-> 1000, o |-> o, ends |-> "halfwidth", tolk |-> 2, rot |-> 0, mag |-> 1] : o \in {0, -750}}
+Init == case \in Books \cup After \cup Cmds \cup Regions \cup RegionsMag
 Next == UNCHANGED case
 AppendOpts == [format |-> "TXT", charset |-> "UTF-8",
                openOptions |-> <<"WRITE", "CREATE", "APPEND">>]
